@@ -38,6 +38,20 @@ static PROBE_STOP_AT: AtomicU64 = AtomicU64::new(0);
 /// Names of the probes passed since the last reset.
 static PROBE_LOG: Mutex<Vec<&'static str>> = Mutex::new(Vec::new());
 
+/// Callback run at every probe (used to copy the storage directory,
+/// giving the image a crash at that point would leave behind).
+#[allow(clippy::type_complexity)]
+static PROBE_HOOK: Mutex<
+    Option<Box<dyn Fn(u64, &'static str) + Send + Sync>>,
+> = Mutex::new(None);
+
+/// Set or clear the probe callback.
+pub fn set_probe_hook(
+    hook: Option<Box<dyn Fn(u64, &'static str) + Send + Sync>>,
+) {
+    *PROBE_HOOK.lock().unwrap() = hook;
+}
+
 /// Marker carried by the panic raised at an armed probe.
 pub const PROBE_STOP_MARKER: &str = "sos-verif-probe-stop";
 
@@ -58,6 +72,11 @@ pub fn probe(name: &'static str) {
     let n = PROBE_COUNT.fetch_add(1, Ordering::SeqCst) + 1;
     if let Ok(mut log) = PROBE_LOG.lock() {
         log.push(name);
+    }
+    if let Ok(hook) = PROBE_HOOK.lock() {
+        if let Some(hook) = hook.as_ref() {
+            hook(n, name);
+        }
     }
     let stop = PROBE_STOP_AT.load(Ordering::SeqCst);
     if stop != 0 && n == stop {
